@@ -22,6 +22,11 @@ unchanged.  This module folds such edits back, on the syntax tree, so that the r
   * merged-if        `if a: if b: BODY` -> `if a and b: BODY`.
   * discard-to-remove `s.discard(e)` -> `if e in s: s.remove(e)`.
   * folded-condition `x = E` + `if x:` (only read of x) -> `if E:`.
+  * sunk-statement   `if a: v = A else: v = B` + the only statement reading v -> that statement in each branch.
+  * bulk-removal     `s.difference_update({x for x in s if c})` -> `for x in list(s): if c: s.remove(x)`.
+  * or-default       `if a: x = a else: x = b` -> `x = a or b` (a pure).
+  * unnested-else    `if a: EXIT else: REST` -> `if a: EXIT` + REST.
+  * split-exit       `return A if c else B` -> `if c: return A` + `return B`; `if a or b: EXIT` -> `if a: EXIT` + `if b: EXIT`.
   * renamed-local    a local defined exactly like a local of the pinned tree that is now missing gets its name back.
 
 Nothing here decides a property; the transformations are sound rewritings (conditions stated with each) and every node
@@ -540,6 +545,30 @@ class Canonicaliser:
                 for owner, f in block_lists(st):
                     setattr(owner, f, do_list(getattr(owner, f)))
                 mode = target = call = None
+                if isinstance(st, ast.If):
+                    # `if self._helper(..):` with a multi-statement new helper: evaluate it just before, then fold
+                    t = st.test.operand if isinstance(st.test, ast.UnaryOp) and isinstance(st.test.op, ast.Not) else st.test
+                    if isinstance(t, ast.Call):
+                        r = self.resolve(unit, t)
+                        hb = strip_doc(r[0].node.body) if r else None
+                        if r and r[0].node is not fn and not (len(hb) == 1 and isinstance(hb[0], ast.Return)):
+                            self._tmp = getattr(self, '_tmp', 0) + 1
+                            nm = '_cond%d' % self._tmp
+                            asg = ast.Assign(targets=[ast.Name(id=nm, ctx=ast.Store())], value=t)
+                            ast.fix_missing_locations(ast.copy_location(asg, st))
+                            new = self.expand(r[0], t, r[1], 'assign', asg.targets[0], fn)
+                            if new is not None:
+                                ref = ast.copy_location(ast.Name(id=nm, ctx=ast.Load()), t)
+                                if t is st.test:
+                                    st.test = ref
+                                else:
+                                    st.test.operand = ref
+                                self.log.append(('inline-helper', unit.loc(st), '%s <- %s (if test)' % (unit.qual, r[0].qual)))
+                                self.inlined.add(r[0])
+                                out.extend(new)
+                                out.append(st)
+                                changed[0] = True
+                                continue
                 if isinstance(st, ast.Expr) and isinstance(st.value, ast.Call):
                     mode, call = 'expr', st.value
                 elif isinstance(st, ast.Assign) and len(st.targets) == 1 and isinstance(st.targets[0], ast.Name) \
@@ -796,6 +825,25 @@ class Canonicaliser:
             out = []
             for i, st in enumerate(stmts):
                 rest = stmts[i + 1:]
+                # a, b = T[k]   (tuple-valued table): the continuation is duplicated with every name substituted
+                if isinstance(st, ast.Assign) and len(st.targets) == 1 and isinstance(st.targets[0], ast.Tuple) and \
+                        all(isinstance(e, ast.Name) for e in st.targets[0].elts):
+                    lk = lookup_of(st.value)
+                    names = [e.id for e in st.targets[0].elts]
+                    if lk and lk[3] and all(stores.get(x) == 1 for x in names) and \
+                            all(isinstance(v, ast.Tuple) and len(v.elts) == len(names) for v in lk[0].values) and \
+                            rest and len(rest) <= 8 and all(uses(rest, x) == uses([fn], x) for x in names):
+                        table, key, default, raises = lk
+
+                        def make(v, rest=rest, names=names):
+                            body = rest
+                            for x, e in zip(names, v.elts):
+                                body = dup(body, x, e)
+                            return body or [ast.copy_location(ast.Pass(), st)]
+                        out.append(chain(key, table, make, keyerror(key, st), st))
+                        self.log.append(('table-dispatch', unit.loc(st), '%s: %s (continuation duplicated)' % (unit.qual, names)))
+                        changed[0] = True
+                        return out
                 # x = T.get(k) / x = T[k]
                 if isinstance(st, ast.Assign) and len(st.targets) == 1 and isinstance(st.targets[0], ast.Name):
                     lk = lookup_of(st.value)
@@ -856,7 +904,7 @@ class Canonicaliser:
     @staticmethod
     def _is_table(v):
         return isinstance(v, ast.Dict) and len(v.keys) >= 2 and all(k is not None and simple_const(k) for k in v.keys) \
-            and all(pure(x) for x in v.values)
+            and all(pure(x) or isinstance(x, ast.Tuple) and all(pure(y) for y in x.elts) for x in v.values)
 
     # ---------------------------------------------------------------- local aliases
     def aliases(self, unit, fn):
@@ -1146,9 +1194,14 @@ class Canonicaliser:
         self.constants()
         for u in units:
             self.dispatch(u, u.node)
+            self.sink_into_branches(u, u.node)
+            self.bulk_removals(u, u.node)
+            self.or_defaults(u, u.node)
             self.aliases(u, u.node)
             self.loops(u, u.node)
             self.fold_conditions(u, u.node)
+            self.split_exits(u, u.node)
+            self.unnest_else(u, u.node)
             self.order_compares(u, u.node)
             self.discards(u, u.node)
             self.merge_ifs(u, u.node)
@@ -1158,6 +1211,205 @@ class Canonicaliser:
         for m in P.mods.values():
             ast.fix_missing_locations(m.tree)
         return {name: m.tree for name, m in P.mods.items()}
+
+    # ---------------------------------------------------------------- statement hoisted out of an if/elif/else
+    def sink_into_branches(self, unit, fn):
+        """`if a: v = A elif b: v = B else: v = C` followed by the only statement that reads v -> that statement
+        inside each branch, with the value in place of v (a repeated statement hoisted out of a chain is put back)."""
+        me = self
+        loads = {}
+        for n in ast.walk(fn):
+            if isinstance(n, ast.Name) and isinstance(n.ctx, ast.Load):
+                loads[n.id] = loads.get(n.id, 0) + 1
+
+        def leaves(node):
+            """the statement lists that end each branch of an if/elif/else chain (None when a branch is missing)."""
+            out = [node.body]
+            if not node.orelse:
+                return None
+            if len(node.orelse) == 1 and isinstance(node.orelse[0], ast.If):
+                sub = leaves(node.orelse[0])
+                if sub is None:
+                    return None
+                return out + sub
+            return out + [node.orelse]
+
+        def do_list(stmts):
+            for st in stmts:
+                if not isinstance(st, (ast.FunctionDef, ast.AsyncFunctionDef, ast.ClassDef)):
+                    for owner, f in block_lists(st):
+                        setattr(owner, f, do_list(getattr(owner, f)))
+            out = []
+            i = 0
+            while i < len(stmts):
+                st = stmts[i]
+                nxt = stmts[i + 1] if i + 1 < len(stmts) else None
+                done = False
+                if isinstance(st, ast.If) and nxt is not None and isinstance(nxt, (ast.Assign, ast.Expr, ast.Return)):
+                    lv = leaves(st)
+                    if lv and all(b and isinstance(b[-1], ast.Assign) and len(b[-1].targets) == 1 and
+                                  isinstance(b[-1].targets[0], ast.Name) for b in lv):
+                        names = {b[-1].targets[0].id for b in lv}
+                        if len(names) == 1:
+                            v = next(iter(names))
+                            n_in = sum(1 for x in ast.walk(nxt) if isinstance(x, ast.Name) and x.id == v
+                                       and isinstance(x.ctx, ast.Load))
+                            if n_in >= 1 and loads.get(v) == n_in and \
+                                    all(pure(b[-1].value) or n_in == 1 for b in lv):
+                                for b in lv:
+                                    val = b[-1].value
+                                    new = Subst({v: val}).visit(copy.deepcopy(nxt))
+                                    ast.copy_location(new, b[-1])
+                                    b[-1] = new
+                                out.append(st)
+                                me.log.append(('sunk-statement', unit.loc(nxt), '%s: %s' % (unit.qual, v)))
+                                i += 2
+                                done = True
+                if not done:
+                    out.append(st)
+                    i += 1
+            return out
+        fn.body = do_list(fn.body)
+
+    # ---------------------------------------------------------------- bulk removal
+    def bulk_removals(self, unit, fn):
+        """`s.difference_update({x for x in s if c})` (pure s) -> `for x in list(s): if c: s.remove(x)`."""
+        me = self
+
+        def do_list(stmts):
+            out = []
+            for st in stmts:
+                if not isinstance(st, (ast.FunctionDef, ast.AsyncFunctionDef, ast.ClassDef)):
+                    for owner, f in block_lists(st):
+                        setattr(owner, f, do_list(getattr(owner, f)))
+                c = st.value if isinstance(st, ast.Expr) else None
+                if isinstance(c, ast.Call) and isinstance(c.func, ast.Attribute) and c.func.attr == 'difference_update' \
+                        and len(c.args) == 1 and isinstance(c.args[0], (ast.SetComp, ast.ListComp, ast.GeneratorExp)) \
+                        and pure(c.func.value) and len(c.args[0].generators) == 1:
+                    comp = c.args[0]
+                    g = comp.generators[0]
+                    if ast.unparse(g.iter) == ast.unparse(c.func.value) and isinstance(g.target, ast.Name) and \
+                            isinstance(comp.elt, ast.Name) and comp.elt.id == g.target.id:
+                        rm = ast.Expr(value=ast.Call(func=ast.Attribute(value=copy.deepcopy(c.func.value), attr='remove',
+                                                                        ctx=ast.Load()),
+                                                     args=[ast.Name(id=g.target.id, ctx=ast.Load())], keywords=[]))
+                        body = [rm]
+                        if g.ifs:
+                            test = g.ifs[0] if len(g.ifs) == 1 else ast.BoolOp(op=ast.And(), values=list(g.ifs))
+                            body = [ast.If(test=test, body=body, orelse=[])]
+                        loop = ast.For(target=ast.Name(id=g.target.id, ctx=ast.Store()),
+                                       iter=ast.Call(func=ast.Name(id='list', ctx=ast.Load()),
+                                                     args=[copy.deepcopy(c.func.value)], keywords=[]),
+                                       body=body, orelse=[])
+                        out.append(ast.fix_missing_locations(ast.copy_location(loop, st)))
+                        for x in ast.walk(loop):
+                            if hasattr(x, 'lineno'):
+                                ast.copy_location(x, st)
+                        me.log.append(('bulk-removal', unit.loc(st), unit.qual))
+                        continue
+                out.append(st)
+            return out
+        fn.body = do_list(fn.body)
+
+    # ---------------------------------------------------------------- x = a or b
+    def or_defaults(self, unit, fn):
+        """`if a: x = a else: x = b` / `x = a if a else b` (a pure) -> `x = a or b`."""
+        me = self
+
+        def as_or(t, v1, v2):
+            if pure(t) and ast.unparse(t) == ast.unparse(v1):
+                return ast.BoolOp(op=ast.Or(), values=[v1, v2])
+            return None
+
+        def do_list(stmts):
+            out = []
+            for st in stmts:
+                if not isinstance(st, (ast.FunctionDef, ast.AsyncFunctionDef, ast.ClassDef)):
+                    for owner, f in block_lists(st):
+                        setattr(owner, f, do_list(getattr(owner, f)))
+                new = None
+                if isinstance(st, ast.If) and len(st.body) == 1 and len(st.orelse) == 1 and \
+                        all(isinstance(x, ast.Assign) and len(x.targets) == 1 for x in (st.body[0], st.orelse[0])) and \
+                        ast.unparse(st.body[0].targets[0]) == ast.unparse(st.orelse[0].targets[0]):
+                    e = as_or(st.test, st.body[0].value, st.orelse[0].value)
+                    if e is not None:
+                        new = ast.Assign(targets=st.body[0].targets, value=e)
+                elif isinstance(st, ast.Assign) and isinstance(st.value, ast.IfExp):
+                    e = as_or(st.value.test, st.value.body, st.value.orelse)
+                    if e is not None:
+                        new = ast.Assign(targets=st.targets, value=e)
+                if new is not None:
+                    out.append(ast.fix_missing_locations(ast.copy_location(new, st)))
+                    me.log.append(('or-default', unit.loc(st), unit.qual))
+                    continue
+                out.append(st)
+            return out
+        fn.body = do_list(fn.body)
+
+    # ---------------------------------------------------------------- no else after an exit
+    def unnest_else(self, unit, fn):
+        """`if a: EXIT else: REST` -> `if a: EXIT` + REST (and the mirrored form with the test negated): an if/elif
+        chain whose branches all leave is the same sequence of independent tests."""
+        me = self
+
+        def do_list(stmts):
+            out = []
+            for st in stmts:
+                if not isinstance(st, (ast.FunctionDef, ast.AsyncFunctionDef, ast.ClassDef)):
+                    for owner, f in block_lists(st):
+                        setattr(owner, f, do_list(getattr(owner, f)))
+                if isinstance(st, ast.If) and st.orelse:
+                    if always_exits(st.body):
+                        rest, st.orelse = st.orelse, []
+                        out.append(st)
+                        out.extend(rest)
+                        me.log.append(('unnested-else', unit.loc(st), unit.qual))
+                        continue
+                    if always_exits(st.orelse):
+                        t = st.test
+                        st.test = t.operand if isinstance(t, ast.UnaryOp) and isinstance(t.op, ast.Not) else \
+                            ast.copy_location(ast.UnaryOp(op=ast.Not(), operand=t), t)
+                        rest, st.body, st.orelse = st.body, st.orelse, []
+                        out.append(st)
+                        out.extend(rest)
+                        me.log.append(('unnested-else', unit.loc(st), unit.qual))
+                        continue
+                out.append(st)
+            return out
+        fn.body = do_list(fn.body)
+
+    # ---------------------------------------------------------------- conditional expressions / disjunctions that exit
+    def split_exits(self, unit, fn):
+        """`return A if c else B` -> `if c: return A` + `return B`;
+        `if a or b: EXIT` (no else, a short body that always leaves) -> `if a: EXIT` + `if b: EXIT`:
+        each way out of the function is then one return statement under conjunctive facts."""
+        me = self
+
+        def do_list(stmts):
+            out = []
+            for st in stmts:
+                if not isinstance(st, (ast.FunctionDef, ast.AsyncFunctionDef, ast.ClassDef)):
+                    for owner, f in block_lists(st):
+                        setattr(owner, f, do_list(getattr(owner, f)))
+                if isinstance(st, ast.Return) and isinstance(st.value, ast.IfExp):
+                    e = st.value
+                    r1 = ast.copy_location(ast.Return(value=e.body), st)
+                    r2 = ast.copy_location(ast.Return(value=e.orelse), st)
+                    i = ast.copy_location(ast.If(test=e.test, body=[r1], orelse=[]), st)
+                    out.extend(do_list([i, r2]))
+                    me.log.append(('split-exit', unit.loc(st), '%s: conditional expression returned' % unit.qual))
+                    continue
+                if isinstance(st, ast.If) and not st.orelse and isinstance(st.test, ast.BoolOp) and \
+                        isinstance(st.test.op, ast.Or) and len(st.body) <= 3 and always_exits(st.body) and \
+                        not any(isinstance(x, (ast.If, ast.For, ast.While, ast.Try, ast.With)) for x in st.body):
+                    for k, v in enumerate(st.test.values):
+                        body = st.body if k == 0 else copy.deepcopy(st.body)
+                        out.append(ast.copy_location(ast.If(test=v, body=body, orelse=[]), st))
+                    me.log.append(('split-exit', unit.loc(st), '%s: disjunction that exits' % unit.qual))
+                    continue
+                out.append(st)
+            return out
+        fn.body = do_list(fn.body)
 
     # ---------------------------------------------------------------- operand order of comparisons
     def order_compares(self, unit, fn):
@@ -1203,7 +1455,14 @@ class Canonicaliser:
                         isinstance(nxt, ast.If):
                     x = st.targets[0].id
                     lm = leftmost(nxt.test)
-                    if stores.get(x) == 1 and loads.get(x) == 1 and isinstance(lm, ast.Name) and lm.id == x:
+                    in_test = [n for n in ast.walk(nxt.test) if isinstance(n, ast.Name) and n.id == x]
+                    # elsewhere in the test: allowed when nothing else in the test has an effect or can fail
+                    # (names, attributes, constants, comparisons and boolean operators only)
+                    calm = all(isinstance(n, (ast.Name, ast.Attribute, ast.Constant, ast.Compare, ast.BoolOp, ast.UnaryOp,
+                                              ast.expr_context, ast.cmpop, ast.boolop, ast.unaryop, ast.List, ast.Tuple))
+                               for n in ast.walk(nxt.test))
+                    if stores.get(x) == 1 and loads.get(x) == 1 and len(in_test) == 1 and \
+                            (isinstance(lm, ast.Name) and lm.id == x or calm):
                         nxt.test = Subst({x: st.value}).visit(nxt.test)
                         me.log.append(('folded-condition', unit.loc(st), '%s: %s' % (unit.qual, x)))
                         i += 1
